@@ -105,10 +105,80 @@ _real_waitall = SU.USE_MSG_WAITALL
 _CONFIG_DEFAULTS = None
 
 
+_LOCK_TYPES = (type(threading.Lock()), type(threading.RLock()))
+_PYRO_MODS = None
+_swept = []      # (kind, container, key, original)
+
+
+def _pyro_modules():
+    global _PYRO_MODS
+    if _PYRO_MODS is None:
+        _PYRO_MODS = [m for n, m in sorted(sys.modules.items()) if n == "Pyro5" or n.startswith("Pyro5.")]
+    return _PYRO_MODS
+
+
+def _sweep_real_locks(sched):
+    """A real lock created when a Pyro5 module is imported or a class/decorator is defined (module global, class
+    attribute, closure cell, default argument) would be held for real across a simulated pre-emption and deadlock the
+    baton. Replace every such lock reachable from the Pyro5 modules by a simulated one for the duration of the run."""
+    def sim_for(lk):
+        return S.SimLock(sched, reentrant=isinstance(lk, _LOCK_TYPES[1]))
+
+    seen = set()
+
+    def visit_func(fn):
+        if id(fn) in seen:
+            return
+        seen.add(id(fn))
+        for cell in (getattr(fn, "__closure__", None) or ()):
+            try:
+                v = cell.cell_contents
+            except ValueError:
+                continue
+            if isinstance(v, _LOCK_TYPES):
+                _swept.append(("cell", cell, None, v))
+                cell.cell_contents = sim_for(v)
+            elif callable(v) and hasattr(v, "__code__"):
+                visit_func(v)
+        w = getattr(fn, "__wrapped__", None)
+        if w is not None and hasattr(w, "__code__"):
+            visit_func(w)
+
+    for m in _pyro_modules():
+        for name, v in list(vars(m).items()):
+            if isinstance(v, _LOCK_TYPES):
+                _swept.append(("attr", m, name, v))
+                setattr(m, name, sim_for(v))
+            elif isinstance(v, type) and getattr(v, "__module__", "").startswith("Pyro5"):
+                for an, av in list(vars(v).items()):
+                    if isinstance(av, _LOCK_TYPES):
+                        _swept.append(("attr", v, an, av))
+                        setattr(v, an, sim_for(av))
+                    f = getattr(av, "__func__", av)
+                    if isinstance(av, property):
+                        for g in (av.fget, av.fset, av.fdel):
+                            if g is not None:
+                                visit_func(g)
+                    elif hasattr(f, "__code__"):
+                        visit_func(f)
+            elif hasattr(v, "__code__") and getattr(v, "__module__", "").startswith("Pyro5"):
+                visit_func(v)
+
+
+def _unsweep_real_locks():
+    while _swept:
+        kind, cont, key, orig = _swept.pop()
+        if kind == "cell":
+            cont.cell_contents = orig
+        else:
+            setattr(cont, key, orig)
+
+
 def install(sched, net, uuid_seed=0, line_codes=()):
     global _saved
     assert _saved is None, "seams already installed"
     _saved = True
+    _sweep_real_locks(sched)
     tf = S.ThreadingFacade(sched)
     tm = S.TimeFacade(sched)
     for m in _TIME_MODS:
@@ -178,6 +248,7 @@ def uninstall():
     SV._get_exposed_members = _real_get_exposed_members
     SU.create_socket = _real_create_socket
     SU.USE_MSG_WAITALL = _real_waitall
+    _unsweep_real_locks()
     ST._client_disconnect_lock = _real_cd_lock
     ST.Worker.__init__ = _real_worker_init
     ST.Worker.__hash__ = _real_worker_hash
